@@ -273,6 +273,34 @@ TEXT["C18"] = dict(
     note=TRUST + " The analyser side (package-wide alias table) has no locality theorem; it is exercised by S-M only. "
          "Theorems/C08 findAlias_known states the one alias rule that was repaired.")
 
+
+# ---- whole-tool part (Model/Pipeline.lean + stage S-P), added to the properties it serves
+WHOLE = (" WHOLE TOOL: Model/Pipeline.lean composes root adjustment, discovery, AST selection, the alias collection "
+         "(Model/Aliases.lean = _get_aliases), the walk, API.to_dict + json.dump(indent=2) (Model/ApiDict.lean) and the "
+         "generator with its file writes into runTool = _run_stub_generator; stage S-P runs the real CLI entry unchanged "
+         "(two callees are wrapped only to observe mypy's graph, its expression-type dict and the griffe tree) and requires "
+         "the model to reproduce outcome, package name, walked modules in order, alias table, API file name, the API JSON "
+         "TEXT and every stub file byte for byte. ")
+WHOLE_THM = {
+    "C01": "Theorems/C01b: tool_error_sources (an error of the run comes from discovery, walk, serialisation or generator - "
+           "never from the alias collection, which is total after repair c9b80ef), discovery_error_is_no_files, alias_step_total.",
+    "C08": "Theorems/C08b: tool_enumeration_order (runTool is invariant under every permutation of the directory listing - end to "
+           "end, incl. API text and write log), alias_table_spec / alias_table_order_independent (the alias table as a dict of "
+           "sets does not depend on the order of build_result.types).",
+    "C10": "Theorems/C10b: api_file_name (the API file is named after the requested source directory, the package after the "
+           "adjusted root; PurePath.stem modelled).",
+    "C12": "Theorems/C12b: api_dict_lists (the eight top-level lists of API.to_dict are the tables sorted by id), "
+           "api_file_lists_sorted_nodup (end to end: in the API file of every completed run they are strictly increasing, "
+           "schema version 1), entry_references.",
+    "C15": "Theorems/C15b: tool_flag_irrelevant (end to end: without test/tests/docs directories the flag changes nothing of the "
+           "run), tool_analysed_kept (every walked module is a discovered file or the __init__ of a discovered package).",
+    "C18": "Theorems/C18b: alias_table_monotone, alias_lookup_local (aliases[name] changes only through expressions that "
+           "contribute under that short name), counterexamples same_short_name_interferes, substring_package_test.",
+}
+for _p, _t in WHOLE_THM.items():
+    TEXT[_p]["text"] = TEXT[_p]["text"] + WHOLE + _t
+    TEXT[_p]["technique"] = TEXT[_p]["technique"] + " + whole-tool correspondence S-P (real _run_stub_generator vs Model/Pipeline.runTool, byte-exact)"
+
 NOT_YET = "not claimed yet: theorems for this property are still being proved (see DESIGN.md)"
 
 
